@@ -2,6 +2,7 @@ import GnpyModel
 import GnpyProofs.Lemmas.ChainNum
 import GnpyProofs.Lemmas.ChainList
 import GnpyProofs.Lemmas.ChainPad
+import GnpyProofs.Lemmas.ChainSplit
 /- Property theorems for C08 — auto-design yields a complete line system.
    Model: GnpyModel/Chain.lean (lists of line elements between two endpoints).  Numeric statements over ℝ.
    Helper lemmas: GnpyProofs/Lemmas/ChainNum.lean, ChainList.lean. -/
@@ -188,6 +189,39 @@ theorem split_preserves_length_and_loss (c : SplitCfg ℝ) (uid : String) (p : F
         List.sum_replicate]
       rw [← s2]; simp; ring
 
+/-- **… and the original total loss**: fibre attenuation + input attenuation + lumped losses of the spans add up to
+those of the original fibre — `att_in` stays on the first span only and every lumped loss (position strictly inside
+the fibre) lands in exactly one span (repaired `_span_params`; connector losses are per-span attributes and are
+not part of this sum). -/
+theorem split_preserves_total_loss (c : SplitCfg ℝ) (uid : String) (p : FiberP ℝ)
+    (hL : 0 < p.length) (ht : 0 < c.target) (hth : c.target ≤ c.hi)
+    (hf : p.length < ((c.fuel + 1 : Nat) : ℝ) * c.target)
+    (hlumps : ∀ l ∈ p.lumps, 0 ≤ l.1 ∧ l.1 < p.length * milli) :
+    ((splitFiber c uid p).map Elem.body).sum = p.glassLoss + p.attIn + p.lumped := by
+  obtain ⟨s1, s2, _⟩ := calcNewLength_spec c.fuel p.length c.lo c.hi c.target hL ht hth hf
+  simp only [splitFiber]
+  split
+  · simp [Elem.body]
+  · set r := calcNewLength c.fuel p.length c.lo c.hi c.target with hr
+    have hnpos : (0:ℝ) < (r.2 : ℝ) := by exact_mod_cast s1
+    have hlen : 0 ≤ r.1 := by
+      by_contra hneg
+      have : (r.2 : ℝ) * r.1 < 0 := mul_neg_of_pos_of_neg hnpos (not_le.mp hneg)
+      linarith
+    have hmilli : (0:ℝ) ≤ milli := by simp only [milli, Nat.cast_one, Nat.cast_ofNat]; norm_num
+    have hs : 0 ≤ r.1 * milli := mul_nonneg hlen hmilli
+    have hin : ∀ l ∈ p.lumps, 0 ≤ l.1 ∧ l.1 < (r.2 : ℝ) * (r.1 * milli) := by
+      intro l hl
+      have := hlumps l hl
+      rw [← mul_assoc, s2]; exact this
+    simp only [List.map_map, Function.comp_def, Elem.body, FiberP.glassLoss, FiberP.lumped]
+    simp only [spanLumps_lumped]
+    rw [List.sum_map_add, List.sum_map_add]
+    simp only [Nat.cast_zero]
+    rw [sum_first_only _ _ s1, spanLumps_total p.lumps r.2 (r.1 * milli) hs hin]
+    simp only [List.map_const', List.length_range, List.sum_replicate, smul_eq_mul, sumLeft_eq_sum]
+    rw [← s2]; ring
+
 /-! ### add_fiber_padding -/
 
 /-- **Padding is reached.** A run of spliced Fiber/Fused elements whose first and last elements are fibres (the last
@@ -209,7 +243,7 @@ theorem padding_reached (padding : ℝ) (r : List (Elem ℝ)) (u : String) (p : 
         obtain ⟨h1, h2⟩ := hl
         subst h1; subst h2
         simp only [runLoss_eq, List.map_cons, List.map_nil, List.sum_cons, List.sum_nil]
-        simp only [Elem.loss, Elem.ramanGain, FiberP.loss, hnr, Bool.false_eq_true, if_false]
+        simp only [Elem.loss, Elem.ramanGain, FiberP.loss, FiberP.lumped, hnr, Bool.false_eq_true, if_false]
         ring
       | cons y t' =>
         have hl' : (y :: t').getLast? = some (.fiber u p) := by
@@ -227,7 +261,7 @@ theorem padding_reached (padding : ℝ) (r : List (Elem ℝ)) (u : String) (p : 
           simp; ring
         rw [e1, e2]
         simp only [List.map_cons, List.map_append, List.map_nil, List.sum_cons, List.sum_append, List.sum_nil]
-        simp only [Elem.loss, Elem.ramanGain, FiberP.loss, hnr, Bool.false_eq_true, if_false]
+        simp only [Elem.loss, Elem.ramanGain, FiberP.loss, FiberP.lumped, hnr, Bool.false_eq_true, if_false]
         ring
     · simp only [hlt, if_false]
       rw [max_eq_right (not_lt.mp hlt)]
@@ -235,7 +269,7 @@ theorem padding_reached (padding : ℝ) (r : List (Elem ℝ)) (u : String) (p : 
       simp only [runLoss_eq]
       conv_rhs => rw [hsplit]
       simp only [List.map_append, List.map_cons, List.map_nil, List.sum_append, List.sum_cons, List.sum_nil]
-      simp only [Elem.loss, Elem.ramanGain, FiberP.loss, hnr]
+      simp only [Elem.loss, Elem.ramanGain, FiberP.loss, FiberP.lumped, hnr]
   exact ⟨key, by rw [key]; exact le_max_left _ _⟩
 
 /-- after padding, the cached `design_span_loss` of the run's last fibre IS the loss of the run (whatever `att_in` the
@@ -280,17 +314,17 @@ theorem padRun_fused_edge_unpadded_fails_current :
       r1.head?.map Elem.isFused = some true ∧ r2.getLast?.map Elem.isFused = some true ∧
       runLoss (padRun padding r1) = 3 ∧ runLoss (padRun padding r2) = 3 ∧ (3:ℝ) < padding := by
   let f : Elem ℝ := .fiber "f" { length := 10, lossCoef := 0.2, conIn := some 0, conOut := some 0, attIn := 0,
-                                 lumped := 0, raman := false, ramanGain := none, dsl := none }
+                                 lumps := [], raman := false, ramanGain := none, dsl := none }
   refine ⟨10, [.fused "x" 1, f], [f, .fused "x" 1], by simp [Elem.isFused], by simp [Elem.isFused], ?_, ?_, by norm_num⟩
   · have h : runLoss [Elem.fused "x" 1, f] < 10 := by
-      simp only [runLoss_eq]; norm_num [f, Elem.loss, FiberP.loss, Elem.ramanGain]
+      simp only [runLoss_eq]; norm_num [f, Elem.loss, FiberP.loss, FiberP.lumped, sumLeft_eq_sum, Elem.ramanGain]
     simp only [padRun, f, List.getLast?_cons_cons, List.getLast?_singleton, Bool.false_eq_true, if_false]
     rw [if_pos h]
     simp only [runLoss_eq]
-    norm_num [Elem.loss, FiberP.loss, Elem.ramanGain]
+    norm_num [Elem.loss, FiberP.loss, FiberP.lumped, sumLeft_eq_sum, Elem.ramanGain]
   · simp only [padRun, f, List.getLast?_cons_cons, List.getLast?_singleton]
     simp only [runLoss_eq]
-    norm_num [Elem.loss, FiberP.loss, Elem.ramanGain]
+    norm_num [Elem.loss, FiberP.loss, FiberP.lumped, sumLeft_eq_sum, Elem.ramanGain]
 
 /-- padding a padded run again changes nothing (needed for redesign, C17) -/
 theorem padRun_idempotent (padding : ℝ) (r : List (Elem ℝ)) (u : String) (p : FiberP ℝ) (v : String) (q : FiberP ℝ)
@@ -351,8 +385,8 @@ example : (0:ℝ) < 300000 ∧ (0:ℝ) < 90000 ∧ (90000:ℝ) ≤ 150000 ∧ (3
 example : ∃ (r : List (Elem ℝ)) (u : String) (p : FiberP ℝ) (v : String) (q : FiberP ℝ) (t : List (Elem ℝ)),
     r = .fiber v q :: t ∧ r.getLast? = some (.fiber u p) ∧ p.raman = false ∧ runLoss r < 10 := by
   let f : FiberP ℝ := { length := 10, lossCoef := 0.2, conIn := some 0, conOut := some 0, attIn := 1.5,
-                        lumped := 0, raman := false, ramanGain := none, dsl := none }
+                        lumps := [], raman := false, ramanGain := none, dsl := none }
   refine ⟨[.fiber "a" f, .fused "x" 1, .fiber "b" f], "b", f, "a", f, _, rfl, by simp, rfl, ?_⟩
-  simp only [runLoss_eq]; norm_num [f, Elem.loss, FiberP.loss, Elem.ramanGain]
+  simp only [runLoss_eq]; norm_num [f, Elem.loss, FiberP.loss, FiberP.lumped, sumLeft_eq_sum, Elem.ramanGain]
 
 end Gnpy.Chain
